@@ -113,6 +113,26 @@ class RenameField(BaseModelFieldMutation):
         model_sig.remove_field_sig(self.old_field_name)
         model_sig.add_field_sig(field_sig)
 
+        # If the field was used in the unique_together or index_together
+        # attributes, update them to refer to the new name.
+        old_field_name = self.old_field_name
+        new_field_name = self.new_field_name
+
+        model_sig.unique_together = [
+            tuple(
+                new_field_name if field_name == old_field_name else field_name
+                for field_name in entry
+            )
+            for entry in model_sig.unique_together
+        ]
+        model_sig.index_together = [
+            tuple(
+                new_field_name if field_name == old_field_name else field_name
+                for field_name in entry
+            )
+            for entry in model_sig.index_together
+        ]
+
     def mutate(self, mutator, model):
         """Schedule a field rename on the mutator.
 
